@@ -23,6 +23,11 @@ pub fn channels(v: &Value) -> Vec<(&'static str, Value, Value)> {
         out.push(("L", v.clone(), json!({"pad": 1})));
     }
     out.push(("V", json!({"var": "x"}), json!({"x": v, "pad": 1})));
+    // every form of var: bracketed, with a truthy / falsy / string default that a PRESENT value (even null) beats
+    out.push(("V-bracketed", json!({"var": ["x"]}), json!({"x": v, "pad": 1})));
+    out.push(("V-default-true", json!({"var": ["x", true]}), json!({"x": v, "pad": 1})));
+    out.push(("V-default-false", json!({"var": ["x", false]}), json!({"x": v, "pad": 1})));
+    out.push(("V-nested-default", json!({"var": ["o.x", "dflt"]}), json!({"o": {"x": v}, "pad": 1})));
     // computed: pass-through of a data value by `if`, and native constructions
     out.push(("C-if", json!({"if": [true, {"var": "x"}, "no"]}), json!({"x": v})));
     match v {
@@ -152,6 +157,16 @@ pub fn run(ctx: &mut Ctx) {
             ctx.edge();
             let rule = op(k, vec![coll.clone(), pred.clone()]);
             res.push(ctx.check(k, &rule, &d));
+            // the member read with every form of var (a present member, even null, beats the default); the
+            // element itself as its own verdict; a literal collection whose ELEMENT is the expression
+            for pv in [json!({"var": ["p"]}), json!({"var": ["p", true]}), json!({"var": ["p", false]}), json!({"var": ["p", [0]]})] {
+                ctx.check(&format!("{}:member-var-forms", k), &op(k, vec![coll.clone(), pv]), &d);
+            }
+            ctx.check(&format!("{}:identity", k), &op(k, vec![json!({"var": "vals"}), json!({"var": ""})]), &json!({"vals": [v]}));
+            if k != "filter" {
+                ctx.check(&format!("{}:literal-element:identity", k), &op(k, vec![json!([{"var": "x"}]), json!({"var": ""})]), &json!({"x": v}));
+                ctx.check(&format!("{}:literal-element:identity:bracketed", k), &op(k, vec![json!([{"var": "x"}, {"var": "x"}]), json!({"var": [""]})]), &json!({"x": v}));
+            }
         }
         // the same with the value as literal predicate result over a literal collection
         if !al::is_operation_shaped(&v) {
